@@ -207,12 +207,14 @@ theorem hdel_refines (f : Bytes) (rest : List Bytes) :
       rw [h2, putAt_self, this]; rfl
     · rw [hdelRec_fst]; exact hn.sublist (List.filter_sublist.map _)
 
-/-- HINCRBY adds to the integer value of the field (missing field = 0); a non-integer value or an overflow
-of the signed 64-bit range is an error that changes nothing. -/
+/-- HINCRBY adds to the integer value of the field (missing field = 0); a stored value that is not an integer
+("ERR hash value is not an integer") or an overflow of the signed 64-bit range is an error that changes
+nothing. -/
 theorem hincrby_refines (f nb : Bytes) (amount : Int) (hnb : Conv.int nb = .ok amount) :
     let out := run "hincrby" ctx [key, f, nb] db
     match Conv.int ((hmap db key f).getD (strBytes "0")) with
-    | .error er => out.reply = .err (strBytes er) ∧ out.db.live = db.live ∧ out.failed = true
+    | .error _ =>
+      out.reply = .err (strBytes Msgs.HASH_NOT_INT_MSG) ∧ out.db.live = db.live ∧ out.failed = true
     | .ok cur =>
       if Conv.INT_MIN ≤ cur + amount ∧ cur + amount ≤ Conv.INT_MAX then
         out.reply = .int (cur + amount) ∧ out.failed = false ∧
@@ -237,12 +239,13 @@ theorem hincrby_refines (f nb : Bytes) (amount : Int) (hnb : Conv.int nb = .ok a
       exact run_hincrby_overflow ctx key f nb nd hv hnb hcur hov
 
 /-- HINCRBYFLOAT: likewise with the model's binary64 arithmetic (`Dbl.add`) and number formatting
-(`Cmd.encodeFloat`); a value or increment that is not a float, or a non-finite sum, is an error that changes
-nothing. -/
+(`Cmd.encodeFloat`); a stored value that is not a float ("ERR hash value is not a float"), an increment that is
+not a float (the converter's message), or a non-finite sum, is an error that changes nothing. -/
 theorem hincrbyfloat_refines (f amt : Bytes) :
     let out := run "hincrbyfloat" ctx [key, f, amt] db
     match Conv.float ((hmap db key f).getD (strBytes "0")), Conv.float amt with
-    | .error er, _ => out.reply = .err (strBytes er) ∧ out.db.live = db.live ∧ out.failed = true
+    | .error _, _ =>
+      out.reply = .err (strBytes Msgs.HASH_NOT_FLOAT_MSG) ∧ out.db.live = db.live ∧ out.failed = true
     | .ok _, .error er => out.reply = .err (strBytes er) ∧ out.db.live = db.live ∧ out.failed = true
     | .ok cur, .ok a =>
       if (Dbl.add cur a).isFinite = true then
@@ -373,7 +376,8 @@ example :
     (run "hdel" exCtx [[1], [10], [10], [99]] exDb).db.live [1] = none ∧
     (run "hdel" exCtx [[1], [99]] exDb).reply = .int 0 :=
   ⟨by rfl, by rfl, by rfl⟩
-/-- `hincrby_refines`: 5 + 3 = 8; 5 + (2^63 - 1) overflows and changes nothing; missing field counts as 0 -/
+/-- `hincrby_refines`: 5 + 3 = 8; 5 + (2^63 - 1) overflows and changes nothing; missing field counts as 0;
+a stored value that is not an integer gets its own message -/
 example :
     Conv.int [51] = .ok 3 ∧
     (run "hincrby" exCtx [[6], [10], [51]] exDb).reply = .int 8 ∧
@@ -382,14 +386,20 @@ example :
     (run "hincrby" exCtx
       [[6], [10], [57, 50, 50, 51, 51, 55, 50, 48, 51, 54, 56, 53, 52, 55, 55, 53, 56, 48, 55]] exDb).reply
       = .err (strBytes Msgs.OVERFLOW_MSG) ∧
-    (run "hincrby" exCtx [[1], [10], [51]] exDb).reply = .err (strBytes Msgs.INVALID_INT_MSG) :=
-  ⟨by rfl, by rfl, by decide +kernel, by decide +kernel, by rfl, by rfl⟩
-/-- `hincrbyfloat_refines`: "5" + "0.5" = "5.5" -/
+    (run "hincrby" exCtx [[1], [10], [51]] exDb).reply = .err (strBytes Msgs.HASH_NOT_INT_MSG) ∧
+    (run "hincrby" exCtx [[1], [10], [51]] exDb).db.live = exDb.live :=
+  ⟨by rfl, by rfl, by decide +kernel, by decide +kernel, by rfl, by rfl, by rfl⟩
+/-- `hincrbyfloat_refines`: "5" + "0.5" = "5.5"; a stored value that is not a float and an increment that is not
+a float get different messages -/
 example :
     (match (run "hincrbyfloat" exCtx [[6], [10], [48, 46, 53]] exDb).reply with | .bulk b => b | _ => [])
       = [53, 46, 53] ∧
-    hmap (run "hincrbyfloat" exCtx [[6], [10], [48, 46, 53]] exDb).db [6] [10] = some [53, 46, 53] :=
-  ⟨by decide +kernel, by decide +kernel⟩
+    hmap (run "hincrbyfloat" exCtx [[6], [10], [48, 46, 53]] exDb).db [6] [10] = some [53, 46, 53] ∧
+    (match (run "hincrbyfloat" exCtx [[1], [10], [49]] exDb).reply with | .err b => b | _ => [])
+      = strBytes Msgs.HASH_NOT_FLOAT_MSG ∧
+    (match (run "hincrbyfloat" exCtx [[6], [10], [120]] exDb).reply with | .err b => b | _ => [])
+      = strBytes Msgs.INVALID_FLOAT_MSG :=
+  ⟨by decide +kernel, by decide +kernel, by decide +kernel, by decide +kernel⟩
 /-- `hash_wrongtype`, `hincrby_badarg`, `hash_missing_key` -/
 example :
     "hset" ∈ hashCmds ∧ ArityOK (sigOf "hset") 3 ∧
@@ -683,24 +693,32 @@ theorem sdiffstore_refines (dst k : Bytes) (ks : List Bytes)
   setop_store_generic ctx db nd wf "sdiffstore" .diff rfl rfl dst k ks hall
 
 /-- PFMERGE stores the union of destination and sources at the destination (which must itself be a set or
-missing); like the STORE commands it is an assignment: the destination's deadline is dropped. -/
-theorem pfmerge_refines (dst k : Bytes) (ks : List Bytes)
-    (hall : ∀ k' ∈ dst :: k :: ks, setView db.live k' ≠ none) :
+missing).  The destination is modified in place: its deadline `ed` is KEPT (a missing destination has none). -/
+theorem pfmerge_refines (dst k : Bytes) (ks : List Bytes) (sd : List Bytes) (ed : Option Int)
+    (hvd : setView db.live dst = some (sd, ed))
+    (hall : ∀ k' ∈ k :: ks, setView db.live k' ≠ none) :
     let out := run "pfmerge" ctx (dst :: k :: ks) db
     ∃ l : List Bytes,
       out.reply = .ok ∧ l.Nodup ∧ (∀ m, m ∈ l ↔ ∃ k' ∈ dst :: k :: ks, smem db k' m) ∧
-      out.db.live = putAt db.live dst (.set l) none ∧
+      out.db.live = putAt db.live dst (.set l) ed ∧
       (∀ m, smem out.db dst m ↔ smem db dst m ∨ ∃ k' ∈ k :: ks, smem db k' m) ∧
+      (∀ k', k' ≠ dst → out.db.live k' = db.live k') ∧
       out.failed = false ∧ LiveWF out.db := by
   intro out
+  have hall' : ∀ k' ∈ dst :: k :: ks, setView db.live k' ≠ none := by
+    intro k' hk'
+    rcases List.mem_cons.1 hk' with rfl | hk'
+    · rw [hvd]; exact fun h => by cases h
+    · exact hall k' hk'
   have := run_pfmerge ctx nd dst k ks
   simp only at this
-  rw [if_pos ((all_typeOK_iff _ _).2 hall)] at this
+  rw [if_pos ((all_typeOK_iff _ _).2 hall'), (setView_some hvd).2] at this
   have hnd := calcSetop_nodup .union (setAt_nodup wf dst) ((k :: ks).map (setAt db.live))
   have hmem : ∀ m, m ∈ Cmd.calcSetop .union (setAt db.live dst) ((k :: ks).map (setAt db.live)) ↔
       ∃ k' ∈ dst :: k :: ks, smem db k' m :=
-    fun m => by rw [calcSetop_mem, setopSpec_smem .union dst (k :: ks) hall]; rfl
-  refine ⟨_, this.1, hnd, hmem, this.2.1, fun m => ?_, this.2.2, liveWF_putAt wf this.2.1 hnd⟩
+    fun m => by rw [calcSetop_mem, setopSpec_smem .union dst (k :: ks) hall']; rfl
+  refine ⟨_, this.1, hnd, hmem, this.2.1, fun m => ?_, (fun k' hk' => by rw [this.2.1, putAt_ne _ _ _ hk']),
+    this.2.2, liveWF_putAt wf this.2.1 hnd⟩
   rw [smem_putAt this.2.1, hmem]
   simp only [List.mem_cons, exists_eq_or_imp]
 
@@ -749,6 +767,21 @@ theorem setop_wrongtype (ctx : Ctx) (db : Db) (nd : NodupKeys db.dict) (dst k : 
       simp only at this
       rw [if_neg hnot] at this; exact this
 
+/-- PFMERGE with a destination or source of another type: WRONGTYPE, nothing changes -/
+theorem pfmerge_wrongtype (ctx : Ctx) (db : Db) (nd : NodupKeys db.dict) (dst k : Bytes) (ks : List Bytes)
+    (hbad : ∃ k' ∈ dst :: k :: ks, setView db.live k' = none) :
+    let out := run "pfmerge" ctx (dst :: k :: ks) db
+    out.reply = .err (strBytes Msgs.WRONGTYPE_MSG) ∧ out.db.live = db.live ∧ out.failed = true := by
+  intro out
+  have hnot : ¬ ((dst :: k :: ks).all (typeOK db.live (some .set)) = true) := by
+    rw [all_typeOK_iff]
+    obtain ⟨k', hk', hv⟩ := hbad
+    exact fun h => h k' hk' hv
+  have := run_pfmerge ctx nd dst k ks
+  simp only at this
+  rw [if_neg hnot] at this
+  exact this
+
 /-! ### non-vacuity of the multi-key theorems -/
 
 example : ∀ k' ∈ [[4], [5], [3]], setView exDb.live k' ≠ none := by decide +kernel
@@ -769,12 +802,15 @@ example :
     (run "sinterstore" exCtx [[4], [5], [3]] exDb).reply = .int 0 ∧
     (run "sinterstore" exCtx [[4], [5], [3]] exDb).db.live [4] = none :=
   ⟨by rfl, by rfl, by rfl, by rfl, by rfl⟩
-/-- `pfmerge_refines` (the destination's deadline 90 is dropped), `setop_wrongtype` -/
+/-- `pfmerge_refines` (the destination's deadline 90 is kept; a missing destination gets none),
+`setop_wrongtype` -/
 example :
     (run "pfmerge" exCtx [[4], [5], [3]] exDb).reply = .ok ∧
-    (run "pfmerge" exCtx [[4], [5], [3]] exDb).db.live [4] = some ⟨.set [[1], [2], [3], [4]], none⟩ ∧
+    (run "pfmerge" exCtx [[4], [5], [3]] exDb).db.live [4] = some ⟨.set [[1], [2], [3], [4]], some 90⟩ ∧
+    (run "pfmerge" exCtx [[3], [4]] exDb).db.live [3] = some ⟨.set [[1], [2], [3]], none⟩ ∧
+    (run "pfmerge" exCtx [[1], [4]] exDb).reply = .err (strBytes Msgs.WRONGTYPE_MSG) ∧
     (run "sunion" exCtx [[4], [1]] exDb).reply = .err (strBytes Msgs.WRONGTYPE_MSG) :=
-  ⟨by rfl, by rfl, by rfl⟩
+  ⟨by rfl, by rfl, by rfl, by rfl, by rfl⟩
 
 /-! ### SMOVE -/
 
